@@ -25,6 +25,7 @@ def classify(f, src=""):
             key = "impl-failure:llvm-verifier:structure-name-in-two-modules"      # (the listed class D58)
         elif _re.search(r"^(?:pub )?struct \w+;", src, _re.M) and crash_needs_opaque(src): key = "impl-failure:llvm-verifier:opaque-structure-by-value"   # (D60)
         elif ("print!" in src or "format!" in src) and crash_is_formatting(src): key += ":print"
+        elif __import__("re").search(r"\b(panic|abort|file|line)!\(", src) and crash_needs_builtin_value(src): key += ":builtin-as-value"
         elif __import__("re").search(r"\[[^\]\[]*\]\s*\[\]", src): key += ":array-of-unsized"    # a `[]T` written as the element of an array
         else: key += ":noprint"
     return key
@@ -41,6 +42,22 @@ def crash_needs_opaque(src):
     f = C.run_harness("ir", [("s", filled)], os.path.join(C.CACHE, "work", "C02", "strip"), jobs=1, timeout=120).get("s", ["missing"])
     res = not f[0].startswith("crash")
     _FMT_CACHE[("opq", src)] = res
+    return res
+
+
+def crash_needs_builtin_value(src):
+    """the crash disappears when every panic!/abort! used as a VALUE (initialiser, assigned, returned) and every
+    file!() is replaced by a literal"""
+    import re
+    if ("biv", src) in _FMT_CACHE: return _FMT_CACHE[("biv", src)]
+    # (a builtin call that does not START its statement stands for a value)
+    stripped = re.sub(r"(?m)^([ \t]*\S[^\n]*?)\b(?:panic|abort)!\((?:[^()\"]|\"(?:\\.|[^\"\\])*\")*\)", lambda m: m.group(1) + "0", src)
+    stripped = re.sub(r"\bfile!\(\)", '"f"', stripped)
+    res = False
+    if stripped != src:
+        f = C.run_harness("ir", [("s", stripped)], os.path.join(C.CACHE, "work", "C02", "strip"), jobs=1, timeout=120).get("s", ["missing"])
+        res = not f[0].startswith("crash")
+    _FMT_CACHE[("biv", src)] = res
     return res
 
 
@@ -155,6 +172,26 @@ def run(tier):
         for init in ("", " = [10, 20]", " = 0", " = Pont { }", " = other"):
             for after in ("", "\tvar y = data;\n", "\tdata[0] = 1;\n", "\tother = data[0];\n"):
                 cases.append(("bt%d" % kb, top + "fn main()\n{\n\tvar other: i32 = 0;\n" + pre + "\tvar data: %s%s;\n" % (ty, init) + after + "}\n", "faulty-local-types")); kb += 1
+    # every builtin in every position a value or a statement can stand in, with every kind of argument (the builtins are
+    # resolved by special arms in the typer, the call analyzer and the generator)
+    kbv = 0
+    BPRE = "struct S\n{\n\tm: i32,\n}\nfn vf()\n{\n}\nfn rows(s: [][]i32)\n{\n}\nextern fn ext(s: []i32);\nextern fn exts(s: []char8) -> i32;\n"
+    for b_ in ('panic!("a")', "abort!()", "file!()", "line!()", 'include_bytes!("a")', 'format!("a", 1)', 'print!("a")', "dbg!(1)", 'eprint!("a")'):
+        for ctx in ("\tvar x: i32 = %s;\n", "\tvar x = %s;\n", "\tvar s: []char8 = %s;\n", "\t%s;\n", "\tvar y: i32 = 1 + %s;\n", "\tprint!(%s);\n", "\tvar a = [%s];\n", "\tvar z: usize = %s;\n", "\tvar q = S { m: %s };\n"):
+            cases.append(("bv%d" % kbv, BPRE + "fn main()\n{\n" + ctx % b_ + "}\n", "builtins-in-value-position")); kbv += 1
+        cases.append(("bv%d" % kbv, BPRE + "fn foo(a: i32) -> i32\n{\n\treturn: %s\n}\nfn main()\n{\n}\n" % b_, "builtins-in-value-position")); kbv += 1
+    for arg in ("vf()", "abort!()", "s[0]", "s", "[1i32, 2i32]", "[1, 2]", "S { m: 1 }", "&s", "|s|", "cast s", "s[0][0]", "\"a\" \"b\"", "'c'", "true", "-1", "0x7f", "1u128"):
+        cases.append(("bv%d" % kbv, BPRE + "fn g(s: [][]i32)\n{\n\tprint!(%s);\n}\nfn main()\n{\n}\n" % arg, "builtins-in-value-position")); kbv += 1
+        cases.append(("bv%d" % kbv, BPRE + "fn g(s: [][]i32)\n{\n\tvar t = format!(\"x\", %s);\n}\nfn main()\n{\n}\n" % arg, "builtins-in-value-position")); kbv += 1
+    # literals and other values handed to extern functions (their views have no length: another coercion)
+    for arg in ("[1i32, 2i32, 3i32]", "[1, 2, 3]", "[]", "a", "&a", "a[0]", "\"text\"", "[a[0], 2]", "v", "[[1]]"):
+        cases.append(("bv%d" % kbv, BPRE + "fn g(v: []i32)\n{\n\tvar a: [3]i32 = [1, 2, 3];\n\text(%s);\n\tvar r = exts(%s);\n}\nfn main()\n{\n}\n" % (arg, arg), "builtins-in-value-position")); kbv += 1
+        cases.append(("bv%d" % kbv, BPRE + "fn g(v: []i32)\n{\n\tvar a: [3]i32 = [1, 2, 3];\n\text(%s);\n}\nfn main()\n{\n}\n" % arg, "builtins-in-value-position")); kbv += 1
+    # members and elements of values whose type is never given
+    for acc in ("x.a", "x[0]", "x.a.b", "x[0].a", "|x|", "&x", "x as i32", "-x", "x + 1"):
+        cases.append(("bv%d" % kbv, "fn main()\n{\n\tvar x;\n\tvar y: i32 = %s;\n}\n" % acc, "untyped-values")); kbv += 1
+        cases.append(("bv%d" % kbv, "fn main()\n{\n\tvar x;\n\tvar y = %s;\n}\n" % acc, "untyped-values")); kbv += 1
+        cases.append(("bv%d" % kbv, "fn f(i: i32)\n{\n}\nfn main()\n{\n\tvar x;\n\tf(%s);\n}\n" % acc, "untyped-values")); kbv += 1
     # written types of every shape to depth 2 (and a few deeper ones) at every declaration position: a sample of
     # C11's type-legality programs - whatever the verdict, no stage may fail on them
     from .. import gen_legal
